@@ -100,6 +100,18 @@ def scopedKey (base scope : List Char) : Key := if scope = [] then base else bas
 def responseKey (qname : List Char) (qtype : Nat) (r : Route) : Key :=
   scopedKey (cacheKey qname qtype) (scopeOf r)
 
+/-- DNS class IN -/
+def classIN : Nat := 1
+
+/-- `questionCacheKey`: the key of a client's question.  The response cache is about class IN; a
+question of another class gets `#class` appended, a key of its own. -/
+def questionKey (qname : List Char) (qtype qclass : Nat) : Key :=
+  cacheKey qname qtype ++ (if qclass = classIN then [] else '#' :: Nat.toDigits 10 qclass)
+
+/-- the response-cache key of a request: question key + scope of the route it was given -/
+def requestKey (qname : List Char) (qtype qclass : Nat) (r : Route) : Key :=
+  scopedKey (questionKey qname qtype qclass) (scopeOf r)
+
 /-- `dnsCacheBaseKey`: everything before the first `|`. -/
 def baseKey (k : Key) : Key := k.takeWhile (· != '|')
 
@@ -196,8 +208,8 @@ def normTtl (nAns : Nat) (firstTtl : Nat) : Nat :=
   min (if nAns > 0 then firstTtl else 120) 31536000
 
 /-- the guard at the top of `NormalizeAndCacheDnsResp_` -/
-def cacheable (isResponse : Bool) (nQuestions rcode : Nat) : Bool :=
-  isResponse && nQuestions != 0 && rcode == 0
+def cacheable (isResponse : Bool) (nQuestions rcode : Nat) (qclass : Nat := classIN) : Bool :=
+  isResponse && nQuestions != 0 && rcode == 0 && qclass == classIN
 
 /-- the key `__updateDnsCacheDeadline` stores under: the caller's, or (`cacheKey == ""`, written `[]`)
 the one derived from the lower-cased fqdn -/
@@ -470,6 +482,42 @@ def run (w : World) : List Op → World × List LRes
     let (w1, r) := step w op
     let (w2, rs) := run w1 ops
     (w2, r :: rs)
+
+/-! ## A whole request (`HandleWithResponseWriter_`) as a piece of history -/
+
+/-- what the upstream answers when it is asked (round trip: one second) -/
+structure Reply where
+  rttl : Nat
+  ans : Nat
+  nAns : Nat
+  ns : Nat
+  rcode : Nat
+deriving Repr
+
+/-- The operations one request expands to, given the world it arrives in: derive the key from the
+question (name, type, class) and the route; look it up.  Fresh or latched-stale hit: nothing else.
+Stale hit with `needRefresh`: `go backgroundRefresh` — one round trip later the reply is stored under
+the same key (if cacheable) and the clean-up runs.  Miss: the request is forwarded; one round trip
+later the reply is stored (if cacheable) and the key is looked up once more (the caller drops that
+lookup's `needRefresh`). -/
+def askOps (w : World) (t : Int) (name : List Char) (qtype qclass : Nat) (r : Route) (rep : Reply)
+    (g : Nat := 1) : List Op :=
+  let key := requestKey name qtype qclass r
+  let store : List Op :=
+    if cacheable true 1 rep.rcode qclass then
+      [.insert (t + SEC) key (fqdn name) qtype (normTtl rep.nAns rep.rttl) rep.ans rep.nAns rep.ns false]
+    else []
+  let first : List Op := List.replicate g (.lookup t key false)
+  match (step w (.lookup t key false)).2 with
+  | .hit s => if s.refresh then first ++ (store ++ [.refreshDone (t + SEC) key]) else first
+  | .miss => first ++ (store ++ List.replicate g (.lookup (t + SEC) key false))
+
+/-- the request(s), executed: final world and the answers of the operations they consisted of.
+`g` identical requests arriving at the same instant are coalesced by the singleflight group: one
+upstream exchange, one store, and every one of them looks the key up again afterwards. -/
+def World.ask (w : World) (t : Int) (name : List Char) (qtype qclass : Nat) (r : Route) (rep : Reply)
+    (g : Nat := 1) : World × List LRes :=
+  run w (askOps w t name qtype qclass r rep g)
 
 /-- times never go backwards along a history that starts at `t0` -/
 def Mono (t0 : Int) : List Op → Prop
